@@ -134,7 +134,25 @@ def generate(rng, tier, shard, nshards):
         yield Case("est", reg, a=a, m=m, dip=float(rng.uniform(-75, 75)), seed=int(rng.integers(2**31)))
 
 
-def cmp_rows(ctx, route, batch_out, singles, tol, what="batch row = single item"):
+def sensitivity(fn, *args, rel=1e-13, trials=3):
+    """Measured rounding sensitivity of fn at args: largest output change under elementwise relative input perturbations of `rel`,
+    expressed per unit of machine epsilon.  Used only to decide whether a difference above the flat tolerance is explained by the
+    conditioning of the function at that input (both entry points evaluate the same formula in a different order)."""
+    rng = np.random.default_rng(12345)
+    base = call(fn, *[x.copy() for x in args])
+    if not base.ok:
+        return 0.0
+    b = np.asarray(base.value, float)
+    worst = 0.0
+    for _ in range(trials):
+        pert = [x * (1.0 + rel * rng.uniform(-1, 1, x.shape)) for x in args]
+        o = call(fn, *pert)
+        if o.ok and np.asarray(o.value).shape == b.shape:
+            worst = max(worst, float(np.nanmax(np.abs(np.asarray(o.value, float) - b))))
+    return worst / rel * 2.2e-16
+
+
+def cmp_rows(ctx, route, batch_out, singles, tol, what="batch row = single item", sens=None):
     """batch_out: Outcome of the N-row call; singles: list of Outcomes per row."""
     if not batch_out.ok and any((not so.ok) and so.exc_name == batch_out.exc_name for so in singles):
         # the single-item entry point fails in the same way on one of the rows: the two entry points agree; whether the item
@@ -168,6 +186,11 @@ def cmp_rows(ctx, route, batch_out, singles, tol, what="batch row = single item"
                 d = min(d, float(np.minimum(w, np.abs(b - s)).max()))
             if d <= tol:
                 ctx.note("rows equal as attitudes across the +-pi branch cut (sign of q / heading +-pi)")
+        if d > tol and sens is not None and np.isfinite(d):
+            allow = 200.0 * sens(i)             # 200 roundings' worth of the measured sensitivity
+            if d <= allow:
+                ctx.note("difference above the flat tolerance but within the measured rounding sensitivity at an ill-conditioned input")
+                d = tol * d / allow
         if d >= worst:
             worst, detail = d, {"row": i, "batch": b, "single": s}
     ctx.le(what, worst, tol, detail, route=route)
@@ -270,10 +293,11 @@ def check_est(case, ctx):
             forms.invariant(ctx, name, lambda x, y: batch(x, y), [a, m])
             forms.invariant(ctx, name, lambda x, y: single(x, y), [a[0], m[0]], clause="single-item call: the same values in another argument form give the same result")
         if N > 1:
-            cmp_rows(ctx, name, call(lambda: batch(a.copy(), m.copy())), [call(lambda i=i: single(a[i].copy(), m[i].copy())) for i in range(N)], TOL_EST)
+            cmp_rows(ctx, name, call(lambda: batch(a.copy(), m.copy())), [call(lambda i=i: single(a[i].copy(), m[i].copy())) for i in range(N)], TOL_EST,
+                     sens=lambda i: sensitivity(single, a[i], m[i]))
         # one-row batch and one-sample constructor call must equal estimate() with the same options
         cmp_rows(ctx, name, call(lambda: np.asarray(batch(a[:1].copy(), m[:1].copy()))), [call(lambda: single(a[0].copy(), m[0].copy()))], TOL_EST,
-                 what="one-row batch = single item")
+                 what="one-row batch = single item", sens=lambda i: sensitivity(single, a[0], m[0]))
         o1 = call(lambda: batch(a[0].copy(), m[0].copy()))
         o2 = call(lambda: single(a[0].copy(), m[0].copy()))
         if not o1.ok and not o2.ok and o1.exc_name == o2.exc_name:
@@ -287,6 +311,11 @@ def check_est(case, ctx):
                     dd = 0.0 if np.array_equal(np.isnan(xf), np.isnan(y)) and np.allclose(xf[~np.isnan(xf)], y[~np.isnan(y)], rtol=0, atol=TOL_EST) else float("inf")
                 else:
                     dd = float(np.abs(xf - y).max())
+                    if dd > TOL_EST:
+                        allow = 200.0 * sensitivity(single, a[0], m[0])
+                        if dd <= allow:
+                            ctx.note("difference above the flat tolerance but within the measured rounding sensitivity at an ill-conditioned input")
+                            dd = TOL_EST * dd / allow
                 ctx.le("one-sample constructor honours its options (= estimate with the same options)", dd, TOL_EST, {"ctor": x, "estimate": y}, route=name)
     for fr in ("NED", "ENU"):
         name = "OLEQ/" + fr
